@@ -1,0 +1,268 @@
+//go:build verif
+
+// Contracts for the publish path of topic.go / channel.go (C01, C13, C05), checked by nsqvc.
+// Comment-only file.
+
+package nsqd
+
+//@ immutable Topic.nsqd, Topic.name, Topic.ephemeral, Topic.backend, Channel.backend
+
+// ---- ghost bookkeeping of the disk-overflow path -------------------------------------------------
+// backendWrites counts the completed calls of writeMessageToBackend in this execution; lastWrite*
+// remember the arguments and the result of the most recent one (definitional: maintained by onreturn).
+//@ ghost backendWrites int
+//@ ghost lastWriteMsg *Message
+//@ ghost lastWriteQueue BackendQueue
+//@ ghost lastWriteErr error
+// healthSets counts the calls of NSQD.SetHealth, lastHealth* remember the most recent one.
+//@ ghost healthSets int
+//@ ghost lastHealthErr error
+//@ ghost lastHealthNSQD *NSQD
+
+// Trusted stub (bytes.Buffer / sync.Pool / the BackendQueue implementation are outside the subset).
+// A nil message would panic in the real function; that is not a precondition here because flush hands
+// it values received from Go channels, whose contents the engine does not model (ENGINE GAPS in
+// NOTES.md). Topic.put / Channel.put require m != nil themselves.
+//@ func writeMessageToBackend(msg *Message, bq BackendQueue) error
+//@   props C01 C05 C13
+//@   trusted
+//@   requires[queue] bq != nil
+//@   modifies backendWrites, lastWriteMsg, lastWriteQueue, lastWriteErr
+//@   onreturn backendWrites := backendWrites + 1
+//@   onreturn lastWriteMsg := msg
+//@   onreturn lastWriteQueue := bq
+//@   onreturn lastWriteErr := result
+
+//@ func (n *NSQD) SetHealth(err error)
+//@   props C01
+//@   trusted
+//@   requires n != nil
+//@   modifies healthSets, lastHealthErr, lastHealthNSQD
+//@   onreturn healthSets := healthSets + 1
+//@   onreturn lastHealthErr := err
+//@   onreturn lastHealthNSQD := n
+
+// topicPutOK counts the Topic.put calls that returned nil (message handed to the memory queue or
+// accepted by the backend), topicPuts all of them; lastTopicPutMsg is the most recent argument.
+//@ ghost topicPuts int
+//@ ghost topicPutOK int
+//@ ghost lastTopicPutMsg *Message
+
+//@ pred flowTopic(t *Topic) := t != nil && t.nsqd != nil && t.backend != nil
+
+//@ func (t *Topic) put(m *Message) error
+//@   props C01 C13
+//@   requires flowTopic(t) && m != nil
+//@   ensures[at-most-one-write] backendWrites == old(backendWrites) || backendWrites == old(backendWrites) + 1
+//@   ensures[backend-gets-this-message] backendWrites == old(backendWrites) + 1 ==> lastWriteMsg == m && lastWriteQueue == t.backend
+//@   ensures[backend-error-returned] backendWrites == old(backendWrites) + 1 ==> result == lastWriteErr
+//@   ensures[error-only-from-backend] result != nil ==> backendWrites == old(backendWrites) + 1
+//@   ensures[health-set] backendWrites == old(backendWrites) + 1 ==> healthSets == old(healthSets) + 1 && lastHealthErr == lastWriteErr && lastHealthNSQD == t.nsqd
+//@   ensures[memory-path-leaves-health] backendWrites == old(backendWrites) ==> healthSets == old(healthSets) && result == nil
+//@   ensures[counters-untouched] t.messageCount == old(t.messageCount) && t.messageBytes == old(t.messageBytes)
+//@   modifies backendWrites, lastWriteMsg, lastWriteQueue, lastWriteErr, healthSets, lastHealthErr, lastHealthNSQD, topicPuts, topicPutOK, lastTopicPutMsg
+//@   onreturn topicPuts := topicPuts + 1
+//@   onreturn topicPutOK := topicPutOK + (result == nil ? 1 : 0)
+//@   onreturn lastTopicPutMsg := m
+
+// 2^64: the counters are uint64 and wrap; the contracts say so exactly instead of assuming no overflow.
+//@ fn two64() int := 18446744073709551616
+
+//@ func (t *Topic) PutMessage(m *Message) error
+//@   props C01 C13
+//@   requires flowTopic(t) && m != nil
+//@   ensures[exiting-refused] old(t.exitFlag) == 1 ==> result != nil
+//@   ensures[exiting-nothing-enqueued] old(t.exitFlag) == 1 ==> topicPuts == old(topicPuts) && backendWrites == old(backendWrites)
+//@   ensures[one-put] old(t.exitFlag) != 1 ==> topicPuts == old(topicPuts) + 1 && lastTopicPutMsg == m
+//@   ensures[ack-iff-enqueued] (result == nil) <==> topicPutOK == old(topicPutOK) + 1
+//@   ensures[error-nothing-enqueued] result != nil ==> topicPutOK == old(topicPutOK)
+//@   ensures[error-counts-unchanged] result != nil ==> t.messageCount == old(t.messageCount) && t.messageBytes == old(t.messageBytes)
+//@   ensures[ok-count] result == nil ==> t.messageCount == fmod(old(t.messageCount) + 1, two64())
+//@   ensures[ok-bytes] result == nil ==> t.messageBytes == fmod(old(t.messageBytes) + len(m.Body), two64())
+//@   ensures[backend-error-returned] backendWrites == old(backendWrites) + 1 ==> result == lastWriteErr
+//@   modifies t.channelMap, mapstore(map[string]*Channel), t.messageCount, t.messageBytes, backendWrites, lastWriteMsg, lastWriteQueue, lastWriteErr, healthSets, lastHealthErr, lastHealthNSQD, topicPuts, topicPutOK, lastTopicPutMsg, putCalls, putErr, putMsg, putTopic
+//   what the publish handlers' contracts observe (ghosts declared in zz_contracts_publish_verif.go)
+//@   onreturn putCalls := putCalls + 1
+//@   onreturn putErr := result
+//@   onreturn putMsg := m
+//@   onreturn putTopic := t
+
+// bodySum(a, off, n): the sum of len(Body) of the n messages a[off..off+n). Recursive definition with
+// fuel (same scheme as `dec` in internal/protocol): a conservative definition, not an assumption
+// about the code; opt-in, so the quantifiers appear only in the obligations that name them. Message bodies are read in the state in which the axiom is instantiated (entry).
+//@ fn bsFuel0() int
+//@ fn bsS(f int) int
+//@ fn bodySumF(f int, a seq[*Message], off int, n int) int
+//@ fn bodySum(a seq[*Message], off int, n int) int := bodySumF(bsS(bsFuel0()), a, off, n)
+//@ axiom[optin] bodysum_syn: forall f int, a seq[*Message], off int, n int :: {bodySumF(bsS(f), a, off, n)}
+//@      bodySumF(bsS(f), a, off, n) == bodySumF(f, a, off, n)
+//@ axiom[optin] bodysum_zero: forall f int, a seq[*Message], off int :: {bodySumF(f, a, off, 0)} bodySumF(f, a, off, 0) == 0
+//@ axiom[optin] bodysum_step: forall f int, a seq[*Message], off int, n int :: {bodySumF(bsS(f), a, off, n)}
+//@      n > 0 ==> bodySumF(bsS(f), a, off, n) == bodySumF(f, a, off, n-1) + len(a[off+n-1].Body)
+
+//@ pred allMsgs(msgs []*Message) := forall k int :: {msgs[k]} 0 <= k && k < len(msgs) ==> msgs[k] != nil
+
+//@ func (t *Topic) PutMessages(msgs []*Message) error
+//@   props C01 C13
+//@   requires flowTopic(t) && allMsgs(msgs)
+//@   ensures[exiting-refused] old(t.exitFlag) == 1 ==> result != nil
+//@   ensures[exiting-nothing-enqueued] old(t.exitFlag) == 1 ==> topicPuts == old(topicPuts) && topicPutOK == old(topicPutOK) && backendWrites == old(backendWrites)
+//@   ensures[exiting-counts-unchanged] old(t.exitFlag) == 1 ==> t.messageCount == old(t.messageCount) && t.messageBytes == old(t.messageBytes)
+//@   ensures[ack-means-all-enqueued] result == nil ==> topicPutOK == old(topicPutOK) + len(msgs) && topicPuts == old(topicPuts) + len(msgs)
+//@   ensures[error-stops-at-first-failure] result != nil && old(t.exitFlag) != 1 ==> topicPuts == old(topicPuts) + (topicPutOK - old(topicPutOK)) + 1 && topicPutOK - old(topicPutOK) < len(msgs)
+//@   ensures[error-is-the-failed-put] result != nil && old(t.exitFlag) != 1 ==> lastTopicPutMsg == msgs[topicPutOK - old(topicPutOK)]
+//@   ensures[count-tracks-enqueued] old(t.exitFlag) != 1 ==> t.messageCount == fmod(old(t.messageCount) + (topicPutOK - old(topicPutOK)), two64())
+//@   ensures[bytes-track-enqueued; uses bodysum_syn, bodysum_zero, bodysum_step] old(t.exitFlag) != 1 ==> t.messageBytes == fmod(old(t.messageBytes) + bodySum(arr(msgs), off(msgs), topicPutOK - old(topicPutOK)), two64())
+//@   ensures[ok-count] result == nil ==> t.messageCount == fmod(old(t.messageCount) + len(msgs), two64())
+//@   ensures[ok-bytes; uses bodysum_syn, bodysum_zero, bodysum_step] result == nil ==> t.messageBytes == fmod(old(t.messageBytes) + bodySum(arr(msgs), off(msgs), len(msgs)), two64())
+//@   modifies t.channelMap, mapstore(map[string]*Channel), t.messageCount, t.messageBytes, backendWrites, lastWriteMsg, lastWriteQueue, lastWriteErr, healthSets, lastHealthErr, lastHealthNSQD, topicPuts, topicPutOK, lastTopicPutMsg, putCalls, putErr, putMsgs, putTopic
+//@   onreturn putCalls := putCalls + 1
+//@   onreturn putErr := result
+//@   onreturn putMsgs := msgs
+//@   onreturn putTopic := t
+//@   loop 0
+//@     invariant[puts] rangeindex < len(msgs) && topicPuts == old(topicPuts) + rangeindex + 1 && topicPutOK == old(topicPutOK) + rangeindex + 1
+//@     invariant[bytes; uses bodysum_syn, bodysum_zero, bodysum_step] fmod(messageTotalBytes - bodySum(arr(msgs), off(msgs), rangeindex + 1), two64()) == 0
+//@     invariant[counters] t.messageCount == old(t.messageCount) && t.messageBytes == old(t.messageBytes)
+
+// ---- channel side ---------------------------------------------------------------------------------
+// chanPutOK counts the Channel.put calls that returned nil, chanPuts all of them.
+//@ ghost chanPuts int
+//@ ghost chanPutOK int
+//@ ghost lastChanPutMsg *Message
+
+//@ pred flowChan(c *Channel) := c != nil && c.nsqd != nil && c.backend != nil
+
+//@ func (c *Channel) Exiting() bool
+//@   props C01 C13
+//@   requires c != nil
+//@   ensures[flag] result == (c.exitFlag == 1)
+//@   modifies
+
+//@ func (c *Channel) put(m *Message) error
+//@   props C01 C13 C05
+//@   requires flowChan(c) && m != nil
+//@   ensures[at-most-one-write] backendWrites == old(backendWrites) || backendWrites == old(backendWrites) + 1
+//@   ensures[backend-gets-this-message] backendWrites == old(backendWrites) + 1 ==> lastWriteMsg == m && lastWriteQueue == c.backend
+//@   ensures[backend-error-returned] backendWrites == old(backendWrites) + 1 ==> result == lastWriteErr
+//@   ensures[error-only-from-backend] result != nil ==> backendWrites == old(backendWrites) + 1
+//@   ensures[health-set] backendWrites == old(backendWrites) + 1 ==> healthSets == old(healthSets) + 1 && lastHealthErr == lastWriteErr && lastHealthNSQD == c.nsqd
+//@   ensures[memory-path-leaves-health] backendWrites == old(backendWrites) ==> healthSets == old(healthSets) && result == nil
+//@   ensures[no-memory-queue-means-backend] c.memoryMsgChan == nil && c.zoneLocalMsgChan == nil && c.regionLocalMsgChan == nil ==> backendWrites == old(backendWrites) + 1
+//@   ensures[plain-mode-skips-topology-queues] !c.topologyAwareConsumption && c.memoryMsgChan == nil ==> backendWrites == old(backendWrites) + 1
+//@   ensures[counters-untouched] c.messageCount == old(c.messageCount) && c.requeueCount == old(c.requeueCount) && c.timeoutCount == old(c.timeoutCount)
+//@   modifies backendWrites, lastWriteMsg, lastWriteQueue, lastWriteErr, healthSets, lastHealthErr, lastHealthNSQD, chanPuts, chanPutOK, lastChanPutMsg
+//@   onreturn chanPuts := chanPuts + 1
+//@   onreturn chanPutOK := chanPutOK + (result == nil ? 1 : 0)
+//@   onreturn lastChanPutMsg := m
+
+//@ func (c *Channel) PutMessage(m *Message) error
+//@   props C01 C13
+//@   requires flowChan(c) && m != nil
+//@   ensures[exiting-refused] old(c.exitFlag) == 1 ==> result != nil
+//@   ensures[exiting-nothing-enqueued] old(c.exitFlag) == 1 ==> chanPuts == old(chanPuts) && backendWrites == old(backendWrites)
+//@   ensures[one-put] old(c.exitFlag) != 1 ==> chanPuts == old(chanPuts) + 1 && lastChanPutMsg == m
+//@   ensures[ok-iff-enqueued] (result == nil) <==> chanPutOK == old(chanPutOK) + 1
+//@   ensures[error-nothing-enqueued] result != nil ==> chanPutOK == old(chanPutOK)
+//@   ensures[error-count-unchanged] result != nil ==> c.messageCount == old(c.messageCount)
+//@   ensures[ok-count] result == nil ==> c.messageCount == fmod(old(c.messageCount) + 1, two64())
+//@   ensures[backend-error-returned] backendWrites == old(backendWrites) + 1 ==> result == lastWriteErr
+//@   ensures[other-counters] c.requeueCount == old(c.requeueCount) && c.timeoutCount == old(c.timeoutCount)
+//@   modifies c.messageCount, backendWrites, lastWriteMsg, lastWriteQueue, lastWriteErr, healthSets, lastHealthErr, lastHealthNSQD, chanPuts, chanPutOK, lastChanPutMsg
+
+// ---- deferred publish -------------------------------------------------------------------------------
+// deferredMutex protects the deferred map and the deferred heap. Every entry of the map is an item
+// that carries a message.
+//@ pred msgItem(item *pqueue.Item) := item != nil && dyntype(item.Value) == typetag("*Message") && unbox(item.Value, "*Message") != nil
+//@ lock Channel.deferredMutex guards deferredMessages, deferredPQ, mapsof(map[MessageID]*pqueue.Item)
+//@   invariant[map] self.deferredMessages != nil
+//@   invariant[values] forall id MessageID :: {self.deferredMessages[id]} has(self.deferredMessages, id) ==> msgItem(self.deferredMessages[id])
+
+//@ pred isDeferred(c *Channel, id MessageID) := has(c.deferredMessages, id)
+
+// deferredPushOK counts the pushDeferredMessage calls that registered their item.
+//@ ghost deferredPushes int
+//@ ghost deferredPushOK int
+//@ ghost lastDeferredMsg *Message
+
+//@ func (c *Channel) pushDeferredMessage(item *pqueue.Item) error
+//@   props C13 C01 C05
+//@   ghostparam gid MessageID
+//@   requires c != nil && msgItem(item)
+//@   ensures[duplicate] atlock(isDeferred(c, unbox(item.Value, "*Message").ID)) ==> result != nil && atunlock(c.deferredMessages[unbox(item.Value, "*Message").ID]) == atlock(c.deferredMessages[unbox(item.Value, "*Message").ID])
+//@   ensures[added] !atlock(isDeferred(c, unbox(item.Value, "*Message").ID)) ==> result == nil && atunlock(isDeferred(c, unbox(item.Value, "*Message").ID)) && atunlock(c.deferredMessages[unbox(item.Value, "*Message").ID]) == item
+//@   ensures[others] gid != unbox(item.Value, "*Message").ID ==> (atunlock(isDeferred(c, gid)) <==> atlock(isDeferred(c, gid))) && atunlock(c.deferredMessages[gid]) == atlock(c.deferredMessages[gid])
+//@   ensures[len] atunlock(len(c.deferredMessages)) == atlock(len(c.deferredMessages)) + (result == nil ? 1 : 0)
+//@   modifies c.deferredMessages, c.deferredPQ, mapstore(map[MessageID]*pqueue.Item), deferredPushes, deferredPushOK, lastDeferredMsg
+//@   onreturn deferredPushes := deferredPushes + 1
+//@   onreturn deferredPushOK := deferredPushOK + (result == nil ? 1 : 0)
+//@   onreturn lastDeferredMsg := unbox(item.Value, "*Message")
+
+// container/heap is outside the verified subset: the heap half of the deferred bookkeeping is assumed
+// to touch only the deferred heap (its slice, backing array and the items' back-index).
+//@ func (c *Channel) addToDeferredPQ(item *pqueue.Item)
+//@   props C13
+//@   trusted
+//@   requires c != nil && item != nil
+//@   modifies c.deferredMessages, c.deferredPQ, mapstore(map[MessageID]*pqueue.Item), elems(*pqueue.Item), pqueue.Item.Index
+
+//@ func (c *Channel) StartDeferredTimeout(msg *Message, timeout time.Duration) error
+//@   props C13 C01
+//@   requires c != nil && msg != nil
+//@   ensures[one-push] deferredPushes == old(deferredPushes) + 1 && lastDeferredMsg == msg
+//@   ensures[ok-iff-registered] (result == nil) <==> deferredPushOK == old(deferredPushOK) + 1
+//@   ensures[refused-not-registered] result != nil ==> deferredPushOK == old(deferredPushOK)
+//@   ensures[counters-untouched] c.messageCount == old(c.messageCount) && c.requeueCount == old(c.requeueCount) && c.timeoutCount == old(c.timeoutCount)
+//@   modifies c.deferredMessages, c.deferredPQ, mapstore(map[MessageID]*pqueue.Item), elems(*pqueue.Item), pqueue.Item.Index, deferredPushes, deferredPushOK, lastDeferredMsg, lastNow
+
+// A deferred publish is counted as received by the channel; the property (C13) wants every counted
+// message to be somewhere: the count advances by exactly the number of items registered in the
+// deferred map (0 or 1). FINDING on the unchanged code: the error of StartDeferredTimeout is dropped
+// after the count has been bumped (see DELIVER/NOTES.md, replay nsqd_deferred_count_test.go).
+//@ func (c *Channel) PutMessageDeferred(msg *Message, timeout time.Duration)
+//@   props C13 C01
+//@   requires c != nil && msg != nil
+//@   ensures[one-push] deferredPushes == old(deferredPushes) + 1 && lastDeferredMsg == msg
+//@   ensures[counted-only-if-deferred] deferredPushOK == old(deferredPushOK) ==> c.messageCount == old(c.messageCount)
+//@   ensures[deferred-is-counted] deferredPushOK == old(deferredPushOK) + 1 ==> c.messageCount == fmod(old(c.messageCount) + 1, two64())
+//@   ensures[at-most-one] c.messageCount == old(c.messageCount) || c.messageCount == fmod(old(c.messageCount) + 1, two64())
+//@   ensures[other-counters] c.requeueCount == old(c.requeueCount) && c.timeoutCount == old(c.timeoutCount)
+//@   modifies c.messageCount, c.deferredMessages, c.deferredPQ, mapstore(map[MessageID]*pqueue.Item), elems(*pqueue.Item), pqueue.Item.Index, deferredPushes, deferredPushOK, lastDeferredMsg, lastNow
+
+// ---- flush / empty (C05) ----------------------------------------------------------------------------
+// Close persists what is still held in memory: the memory queues, the in-flight map and the deferred
+// map. What the engine can decide (channel contents and the completeness of a map range are not
+// modelled, see NOTES.md): every write goes to this channel's own backend, the message written in a
+// map iteration is the map entry of that iteration, the deferred entries really carry messages (type
+// assertion), no map or counter is changed, and write errors are logged, never returned.
+//@ func (c *Channel) flush() error
+//@   props C05 C01
+//@   requires flowChan(c)
+//@   ensures[errors-not-returned] result == nil
+//@   ensures[own-backend] backendWrites > old(backendWrites) ==> lastWriteQueue == c.backend
+//@   ensures[never-unwrites] backendWrites >= old(backendWrites)
+//@   ensures[counters-untouched] c.messageCount == old(c.messageCount) && c.requeueCount == old(c.requeueCount) && c.timeoutCount == old(c.timeoutCount)
+//@   modifies c.inFlightMessages, c.inFlightPQ, mapstore(map[MessageID]*Message), c.deferredMessages, c.deferredPQ, mapstore(map[MessageID]*pqueue.Item), backendWrites, lastWriteMsg, lastWriteQueue, lastWriteErr
+//@   loop 0
+//@     invariant[own-backend] backendWrites >= old(backendWrites) && (backendWrites > old(backendWrites) ==> lastWriteQueue == c.backend)
+//@   loop 1
+//@     invariant[own-backend] backendWrites >= atlock(backendWrites) && (backendWrites > old(backendWrites) ==> lastWriteQueue == c.backend)
+//@     invariant[map-kept] c.inFlightMessages == atlock(c.inFlightMessages) && len(c.inFlightMessages) == atlock(len(c.inFlightMessages))
+//@     invariant[entries-kept] forall id MessageID :: {c.inFlightMessages[id]} (has(c.inFlightMessages, id) <==> atlock(has(c.inFlightMessages, id))) && c.inFlightMessages[id] == atlock(c.inFlightMessages[id])
+//@     invariant[wrote-entry] backendWrites > atlock(backendWrites) ==> lastWriteMsg != nil && (exists id MessageID :: {c.inFlightMessages[id]} has(c.inFlightMessages, id) && c.inFlightMessages[id] == lastWriteMsg)
+//@   loop 2
+//@     invariant[own-backend] backendWrites >= atlock(backendWrites) && (backendWrites > old(backendWrites) ==> lastWriteQueue == c.backend)
+//@     invariant[map-kept] c.deferredMessages == atlock(c.deferredMessages) && len(c.deferredMessages) == atlock(len(c.deferredMessages))
+//@     invariant[entries-kept] forall id MessageID :: {c.deferredMessages[id]} (has(c.deferredMessages, id) <==> atlock(has(c.deferredMessages, id))) && c.deferredMessages[id] == atlock(c.deferredMessages[id])
+//@     invariant[wrote-entry] backendWrites > atlock(backendWrites) ==> lastWriteMsg != nil && (exists id MessageID :: {c.deferredMessages[id]} has(c.deferredMessages, id) && unbox(c.deferredMessages[id].Value, "*Message") == lastWriteMsg)
+
+//@ func (t *Topic) flush() error
+//@   props C05 C01
+//@   requires flowTopic(t)
+//@   ensures[errors-not-returned] result == nil
+//@   ensures[own-backend] backendWrites > old(backendWrites) ==> lastWriteQueue == t.backend
+//@   ensures[never-unwrites] backendWrites >= old(backendWrites)
+//@   ensures[counters-untouched] t.messageCount == old(t.messageCount) && t.messageBytes == old(t.messageBytes)
+//@   modifies backendWrites, lastWriteMsg, lastWriteQueue, lastWriteErr
+//@   loop 0
+//@     invariant[own-backend] backendWrites >= old(backendWrites) && (backendWrites > old(backendWrites) ==> lastWriteQueue == t.backend)
